@@ -12,26 +12,31 @@
 (*    payload object and 0 otherwise; after Teardown constructions =           *)
 (*    destructions for every storage;                                          *)
 (*  - the action properties of ValueBox (RefProtocolLegal, Independence,       *)
-(*    CopiesEqualSource).                                                      *)
+(*    CopiesEqualSource, NothingGivenByThrow).  With Throwing = TRUE the        *)
+(*    histories include payload operations that throw; a failed operation is   *)
+(*    read as "nothing was given".                                             *)
 EXTENDS ValueBox
 
 CONSTANT K
 VARIABLES hist, nct, ndt
 varsH == <<st, last, hist, nct, ndt>>
 
-ValueOps == {"ValueCtor", "AssignValue", "Emplace", "Mutate", "AnyValueCtor", "AnyAssignValue", "AnySet"}
+ValueOps == {"ValueCtor", "MakeOptional", "AssignValue", "Emplace", "Mutate", "AnyValueCtor", "AnyAssignValue", "AnySet"}
+CtorOps  == {"ValueCtor", "MakeOptional", "CopyCtor", "MoveCtor", "ConvCopyCtor", "ConvMoveCtor", "AnyValueCtor", "AnyCopyCtor", "AnyMoveCtor"}
+PoisonOps == {"Poison", "AnyPoison"}
 EmptyOps == {"DefaultCtor", "ResetValue", "AnyDefaultCtor"}
 KillOps  == {"Destroy", "AnyDestroy"}
 MoveOps  == {"MoveCtor", "ConvMoveCtor", "MoveAssign", "ConvMoveAssign", "AnyMoveCtor", "AnyMoveAssign"}
-Mutators == ValueOps \cup EmptyOps \cup KillOps \cup MoveOps \cup CopyActions \cup {"Teardown"}
+Mutators == ValueOps \cup EmptyOps \cup KillOps \cup MoveOps \cup CopyActions \cup PoisonOps \cup {"Teardown"}
 
-IsMut(l) == l.a \in Mutators /\ l.exp.done = "returned"
+\* recorded with their outcome; a get<wrong type>() = v that threw did nothing
+IsMut(l) == l.a \in Mutators /\ ~(l.a = "AnySet" /\ l.exp.done = "throws")
 CountEv(evs, k, w) == Cardinality({i \in DOMAIN evs : evs[i].k = k /\ evs[i].w = w})
 
 InitH == Init /\ hist = <<>> /\ nct = [w \in OSlots |-> 0] /\ ndt = [w \in OSlots |-> 0]
 \* a step Nx of the specification, with the history and the counters updated from `last'`
 HStep(Nx) == /\ Nx
-             /\ hist' = IF IsMut(last') THEN Append(hist, [a |-> last'.a, arg |-> last'.arg]) ELSE hist
+             /\ hist' = IF IsMut(last') THEN Append(hist, [a |-> last'.a, arg |-> last'.arg, done |-> last'.exp.done]) ELSE hist
              /\ nct' = [w \in OSlots |-> nct[w] + CountEv(last'.ev, "ctor", w)]
              /\ ndt' = [w \in OSlots |-> ndt[w] + CountEv(last'.ev, "dtor", w)]
 NextH == HStep(Next)
@@ -51,7 +56,13 @@ After(w, i) ==
   ELSE LET j == MaxOf(T)  op == hist[j] IN
        IF op.a = "Teardown" THEN None
        ELSE IF op.arg.d = w
-            THEN IF op.a \in ValueOps THEN Eng(IF w \in ASlots THEN op.arg.ty ELSE "-", op.arg.v)
+            THEN IF op.done = "throws"
+                 THEN \* the statement's reading of a failed operation: nothing was given
+                      IF op.a = "Emplace" THEN Empty                         \* old payload gone, none given
+                      ELSE IF op.a \in CtorOps THEN None                     \* no wrapper came into existence
+                      ELSE AfterFailedAssign(After(w, j - 1))                \* old value or empty
+                 ELSE IF op.a \in PoisonOps THEN [After(w, j - 1) EXCEPT !.p = TRUE]
+                 ELSE IF op.a \in ValueOps THEN Eng(IF w \in ASlots THEN op.arg.ty ELSE "-", op.arg.v)
                  ELSE IF op.a \in EmptyOps THEN Empty
                  ELSE IF op.a \in KillOps THEN None
                  ELSE Given(After(op.arg.s, j - 1))                \* copy / move: what the source held just before
@@ -65,10 +76,11 @@ Conservation ==
 
 RefProtocolLegalH == [][Legal(Store(st), last'.ev, Store(st'))]_varsH
 IndependenceH == [][\A w \in Slots \ Touched(last') : st'[w] = st[w]]_varsH
-CopiesEqualSourceH == [][last'.a \in CopyActions =>
-                          /\ st'[last'.arg.s] = st[last'.arg.s]
-                          /\ st'[last'.arg.d].s = st[last'.arg.s].s /\ st'[last'.arg.d].v = st[last'.arg.s].v
-                          /\ st'[last'.arg.d].ty = st[last'.arg.s].ty]_varsH
+CopiesEqualSourceH == [][CopyOK(st, st', last')]_varsH
+NothingGivenByThrowH ==
+  [][last'.exp.done = "throws" =>
+       \A w \in Slots : /\ (st[w].s = "none" => st'[w].s = "none")
+                        /\ (IsEng(st'[w]) => st'[w] = st[w])]_varsH
 
 HistBound == Len(hist) <= K
 View == <<st, hist>>
